@@ -165,6 +165,7 @@ class Registry:
         ghost_params: Optional[Dict[str, str]] = None,
         assumed_ensures: Optional[List[ClauseSrc]] = None,
         ghost_on_raise: Optional[Dict[str, List[str]]] = None,
+        inline: bool = False,
     ) -> FnContract:
         short = qualname.split(":")[1]
         rc: Dict[str, List[Clause]] = {}
@@ -199,6 +200,7 @@ class Registry:
             ghost_params=dict(ghost_params or {}),
             assumed_ensures=mk_clauses(f"{short}.assumed-post", assumed_ensures, props),
             ghost_on_raise=dict(ghost_on_raise or {}),
+            inline=inline,
         )
         for lo in f.loops.values():
             lo["invariant"] = mk_clauses(f"{short}.loopinv", lo.get("invariant"), props)
